@@ -324,8 +324,6 @@ func (o *trafficOracle) checkGatewayWrite(s *Sim, w *Write) {
 	switch {
 	case br == nil:
 		s.Violate("C03", "T1-pods", "T1/nobr/"+fam, w.Seq, "traffic for step %d written although no BatchRelease exists (pods of the step were never upgraded)", k)
-	case br.Status.CanaryStatus.CurrentBatchState != v1beta1.ReadyBatchState:
-		s.Violate("C03", "T1-pods", "T1/notready/"+fam, w.Seq, "traffic for step %d written while BatchRelease batch %d is %s", k, br.Status.CanaryStatus.CurrentBatch, br.Status.CanaryStatus.CurrentBatchState)
 	default:
 		b := int(br.Status.CanaryStatus.CurrentBatch)
 		if b < len(br.Spec.ReleasePlan.Batches) && steps[k-1].Replicas != nil && br.Spec.ReleasePlan.Batches[b].CanaryReplicas != *steps[k-1].Replicas {
